@@ -239,7 +239,11 @@ func main() {
 			fatal(2, "--replay needs a file")
 		}
 		build(scratch)
-		_, out, _ := runWorker(scratch, []string{"-replay", os.Args[3], "-trace"}, "")
+		rp := os.Args[3]
+		if abs, err := filepath.Abs(rp); err == nil {
+			rp = abs
+		}
+		_, out, _ := runWorker(scratch, []string{"-replay", rp, "-trace"}, "")
 		fmt.Print(out)
 		switch {
 		case strings.Contains(out, "\nREPRODUCED ") || strings.HasPrefix(out, "REPRODUCED "):
